@@ -50,6 +50,11 @@ func genC17Overlap(r *h.Rng, tier string, idx int) *h.Plan {
 		case 2:
 			op.K = "search"
 			op.J = map[string]interface{}{"by": "?who"}
+			if r.Bool() {
+				// asked at the child K, which sees L through its parent list
+				op.Loc = "K"
+				op.B = true
+			}
 		case 3:
 			op.K = "getfact"
 			op.Id = "seed"
@@ -99,6 +104,9 @@ func execC17Overlap(t *testing.T, plan *h.Plan, trace bool) *h.Result {
 		}
 		if x := do(hs.Req{Op: "addrule", Loc: "L", Id: "slowrule", J: rule}); x == "ERR" {
 			panic("slow rule refused")
+		}
+		if x := do(hs.Req{Op: "setparents", Loc: "K", L: []string{"L"}}); x == "ERR" {
+			panic("setparents refused")
 		}
 		start := time.Now()
 		results := make([]string, len(plan.Ops))
@@ -150,6 +158,14 @@ func execC17Overlap(t *testing.T, plan *h.Plan, trace bool) *h.Result {
 			for _, id := range ids {
 				if !containsKey(srs, id) {
 					fail("acknowledged-write-missed", when+":search", "%s, %s: a search does not find %s, whose write was acknowledged: %s.  Requests: %s", name, when, id, h.Trunc(srs, 300), c17Timeline(plan))
+					return
+				}
+			}
+			// ... and the child sees it through its parent
+			srs = do(hs.Req{Op: "search", Loc: "K", B: true, J: map[string]interface{}{"by": "?who"}})
+			for _, id := range ids {
+				if !containsKey(srs, id) {
+					fail("acknowledged-write-missed", when+":inherited", "%s, %s: an inherited search at the child K does not find L/%s, whose write was acknowledged: %s.  Requests: %s", name, when, id, h.Trunc(srs, 300), c17Timeline(plan))
 					return
 				}
 			}
